@@ -104,7 +104,7 @@ func runC01(p *core.Program, r *core.Report) {
 	c01Blob(p, r, "C01.blob")
 	c01Helpers(p, r)
 	c01Counter(p, r)
-	c01Chokepoint(p, r)
+	c01Chokepoint(p, r, "C01.chokepoint")
 }
 
 func bigEndianSpec(spec packSpec, width int, bufName string) bits.Vec {
@@ -554,7 +554,7 @@ func amountOfSlice(e ast.Expr) string {
 	return "len(" + types.ExprString(e) + ")"
 }
 
-func c01Chokepoint(p *core.Program, r *core.Report) {
+func c01Chokepoint(p *core.Program, r *core.Report, rule string) {
 	pk := p.Pkg("io")
 	if pk == nil {
 		return
@@ -564,7 +564,7 @@ func c01Chokepoint(p *core.Program, r *core.Report) {
 		inT, _ = o.Type().(*types.Named)
 	}
 	if inT == nil {
-		r.Undec("C01.chokepoint", "io.DataInputX", "-", "type not found")
+		r.Undec(rule, "io.DataInputX", "-", "type not found")
 		return
 	}
 	allowed := map[string]bool{"io.(*DataInputX).ReadBytes": true, "io.NewDataInputX": true, "io.NewDataInputNet": true, "io.(*DataInputX).Available": true}
@@ -593,9 +593,9 @@ func c01Chokepoint(p *core.Program, r *core.Report) {
 		}
 		name := core.FuncName(fi.Obj)
 		if allowed[name] {
-			r.OK("C01.chokepoint", name, p.Pos(fi.Decl.Pos()), "touches "+strings.Join(uniq(fields), ","))
+			r.OK(rule, name, p.Pos(fi.Decl.Pos()), "touches "+strings.Join(uniq(fields), ","))
 		} else {
-			r.Viol("C01.chokepoint", name, p.Pos(fi.Decl.Pos()), "reads the input buffer/connection directly ("+strings.Join(uniq(fields), ",")+") instead of going through ReadBytes: the short-read check can be bypassed")
+			r.Viol(rule, name, p.Pos(fi.Decl.Pos()), "reads the input buffer/connection directly ("+strings.Join(uniq(fields), ",")+") instead of going through ReadBytes: the short-read check can be bypassed")
 		}
 	}
 }
